@@ -31,6 +31,11 @@ fn opts_of(id: &str) -> Opts {
         "rust" => o.normalization_rust = true,
         "other" => o.fragments_other_variant = true,
         "named" => o.operation_name = Some("Q".into()),
+        // derive lists that name a trait twice (once more than the built-in one, once among themselves)
+        "derives" => {
+            o.variables_derives = Some("Serialize, Debug, Clone, PartialEq".into());
+            o.response_derives = Some("Debug, Clone, PartialEq, Debug".into());
+        }
         _ => {}
     }
     o
@@ -204,7 +209,7 @@ pub fn run(outdir: &Path, tier: &str, seed: u64, shards: usize, _replay: Option<
     let _ = std::os::unix::fs::symlink("a.graphql", base.join("alias.current"));
     let schemas = ["alias.json", "alias.current", "a.graphql", "x/schema.graphql", "y/schema.graphql", "a.gql", "a.json", "app/schema.graphql", "app/shared/../schema.graphql", "c.graphql", "d.graphql", "broken.graphql", "schema.txt", "missing.graphql"];
     let queries = ["q1.graphql", "x/q.graphql", "y/q.graphql", "q3.graphql", "qw.graphql", "qf1.graphql", "qf2.graphql", "brokenq.graphql", "missingq.graphql"];
-    let optids = ["default", "rust", "other", "named"];
+    let optids = ["default", "rust", "other", "named", "derives"];
     let nhist = if tier == "thorough" { 300 } else { 24 };
     let mut cases = vec![];
     let mut dist = std::collections::BTreeMap::<String, usize>::new();
@@ -224,6 +229,7 @@ pub fn run(outdir: &Path, tier: &str, seed: u64, shards: usize, _replay: Option<
         vec![vec![mk("qw.graphql", "c.graphql", "default"), mk("qw.graphql", "d.graphql", "default"), mk("qw.graphql", "c.graphql", "default")]], // same-named input type
         vec![vec![mk("qw.graphql", "d.graphql", "default"), mk("qw.graphql", "c.graphql", "default"), mk("qw.graphql", "d.graphql", "default")]],
         vec![vec![mk("x/q.graphql", "a.graphql", "default"), mk("y/q.graphql", "a.graphql", "default"), mk("x/q.graphql", "a.json", "rust")]],
+        vec![vec![mk("q1.graphql", "a.graphql", "derives"), mk("qw.graphql", "c.graphql", "derives"), mk("q1.graphql", "a.graphql", "derives")]], // a trait named twice in a derive list
     ];
     // the same, split over two threads
     let two: Vec<Vec<Vec<Call>>> = directed.iter().map(|h| { let all = h[0].clone(); let mid = all.len() / 2; vec![all[..mid].to_vec(), all[mid..].to_vec()] }).collect();
